@@ -365,6 +365,8 @@ fn separated(a: f64, b: f64) -> bool {
 struct Verdict {
     failures: Vec<(String, String)>,
     excluded: Vec<String>,
+    /// query rows whose prediction was compared with the definition's arg-max
+    rows_checked: usize,
 }
 
 /// Evaluate every clause of the property on the implementation's outputs.
@@ -376,11 +378,11 @@ fn evaluate(c: &Case, io: &ImplOut) -> Verdict {
     let fit = match &io.fit {
         Err(msg) => {
             f.push(("fit_total".into(), format!("fit panicked on a valid training set: {}", msg)));
-            return Verdict { failures: f, excluded: ex };
+            return Verdict { failures: f, excluded: ex, rows_checked: 0 };
         }
         Ok(None) => {
             f.push(("fit_total".into(), "fit returned Err on a valid training set".into()));
-            return Verdict { failures: f, excluded: ex };
+            return Verdict { failures: f, excluded: ex, rows_checked: 0 };
         }
         Ok(Some(fit)) => fit,
     };
@@ -388,7 +390,7 @@ fn evaluate(c: &Case, io: &ImplOut) -> Verdict {
     let want: Vec<f64> = s.classes.iter().map(|l| *l as f64).collect();
     if fit.classes != want {
         f.push(("class_labels".into(), format!("classes {:?}, expected {:?}", fit.classes, want)));
-        return Verdict { failures: f, excluded: ex };
+        return Verdict { failures: f, excluded: ex, rows_checked: 0 };
     }
     // class counts
     if fit.count != s.counts {
@@ -498,6 +500,7 @@ fn evaluate(c: &Case, io: &ImplOut) -> Verdict {
         }
     }
     // MAP decision
+    let mut rows_checked = 0usize;
     let all_scores: Vec<Option<Vec<f64>>> = c.q.iter().map(|r| spec_scores(c, &s, r)).collect();
     let in_domain = all_scores.iter().all(|o| o.is_some());
     match &io.pred {
@@ -531,6 +534,7 @@ fn evaluate(c: &Case, io: &ImplOut) -> Verdict {
                         }
                         Some(pos) => {
                             if sc[pos] == best {
+                                rows_checked += 1;
                                 continue;
                             }
                             if !separated(sc[pos], best) {
@@ -545,7 +549,7 @@ fn evaluate(c: &Case, io: &ImplOut) -> Verdict {
             }
         }
     }
-    Verdict { failures: f, excluded: ex }
+    Verdict { failures: f, excluded: ex, rows_checked }
 }
 
 /// May the correspondence demand the model's exact arg-max?  Yes when, for every query row, every
@@ -562,7 +566,8 @@ fn strict_ok(c: &Case) -> bool {
                             Some((l1, l2)) => (s.classes[a] == l1 && s.classes[b] == l2) || (s.classes[a] == l2 && s.classes[b] == l1),
                             None => false,
                         };
-                        if !is_dup && !separated(sc[a], sc[b]) {
+                        let both_impossible = sc[a] == f64::NEG_INFINITY && sc[b] == f64::NEG_INFINITY;
+                        if !is_dup && !both_impossible && !separated(sc[a], sc[b]) {
                             return false;
                         }
                     }
@@ -581,7 +586,7 @@ fn coq_nmat(m: &[Vec<usize>]) -> String {
 }
 fn emit_corr(out: &mut Out, c: &Case, group: &str) {
     let io = run_impl(c);
-    let strict = strict_ok(c);
+    let strict = guard(|| strict_ok(c)).unwrap_or(false);
     let cls = |f: &Fit| coq_list_z(&f.classes.iter().map(|l| *l as i64).collect::<Vec<i64>>());
     let exp_fit = match &io.fit {
         Ok(Some(f)) => Some(match c.v {
@@ -970,7 +975,9 @@ fn search_case(out: &mut Out, c: &Case) {
     for e in &v.excluded {
         out.count(e);
     }
-    out.count("search:query-rows-checked");
+    for _ in 0..v.rows_checked {
+        out.count("search:query-rows-checked-against-argmax");
+    }
     for (oracle, what) in &v.failures {
         let small = shrink(c, oracle);
         let mut w = small.to_json();
@@ -1094,7 +1101,7 @@ fn main() {
 
     // ---- correspondence: small cases through the Coq model ----
     let small = Sizes { nmax: 12, pmax: 4, kmax: 4, qmax: 4 };
-    let ncorr = if a.thorough { 160 } else { 44 };
+    let ncorr = if a.thorough { 400 } else { 90 };
     for v in variants.iter() {
         for i in 0..ncorr {
             let mut c = gen_case(&mut rng, *v, &small, true);
@@ -1127,7 +1134,7 @@ fn main() {
 
     // ---- search ----
     let full = Sizes { nmax: 120, pmax: 8, kmax: 5, qmax: 12 };
-    let nsearch = if a.thorough { 6000 } else { 700 };
+    let nsearch = if a.thorough { 40000 } else { 5000 };
     for i in 0..nsearch {
         for v in variants.iter() {
             let mut c = gen_case(&mut rng, *v, &full, false);
